@@ -9,12 +9,30 @@ otherwise the root application's. The choice is a function of the request path a
 alone; the status of a framework error value becomes the response status under the default
 handler, and a failing error handler yields a 500."
 
-* `contains pre path`   : the mount prefix contains the path on a segment boundary.
-* `selectSpec`          : among the mounted apps that configured a handler and contain the path, the
-                          innermost = the one with the longest prefix (all of them are prefixes of
-                          the same path, `boundary_match_unique`); no order of evaluation anywhere.
+"Mount prefix" and "contains" are read the way the ROUTER reads them, because that decides which
+requests the mounted app serves:
+* `mountedAt k`         : a prefix registered without its leading slash ("api") is mounted at "/api"
+                          (router.go register: `pathRaw = "/" + pathRaw`).
+* `fold cfg`            : letter case is ignored unless `CaseSensitive` (the router lower-cases both
+                          the registered path and the detection path).
+* `contains cfg k path` : the (folded) prefix is a string prefix of the (folded) path and ends where a
+                          path segment ends — the literal reading.
+* `coversPat cfg k path`: the prefix read as a route pattern: a segment `:name` stands for any
+                          non-empty path segment; everything else is literal; the covered part ends
+                          where a path segment ends. (Pattern language of the spec: whole-segment
+                          named parameters. Wildcards, optional / constrained / mid-segment parameters
+                          and escapes are outside — the driver rejects such prefixes.)
+* `candidates`          : mounted apps (not the root) that configured a handler and whose prefix contains
+                          the path literally or as a pattern.
+* `reach`               : how far into the path the prefix reaches — its own length when it contains
+                          the path literally, else what the pattern consumed. Nested mounts reach
+                          strictly further, so innermost = furthest reach; where a literal and a
+                          parameterised sibling reach equally far the literal (more specific) one is
+                          taken. No order of evaluation anywhere.
 * `expected`            : the one outcome the sentence allows for a chain result.
 * `specViolation`       : oracle on the SET of outcomes the implementation produced for one case.
+* `specServerErr`       : errors before routing (no chain ran): which framework error the funnel is
+                          fed; everything after that is the same sentence.
 -/
 namespace C08
 open B C04
@@ -27,44 +45,128 @@ def stripPrefix : Bytes → Bytes → Option Bytes
 
 /-- the prefix ends where a path segment ends: nothing follows, or a '/' follows, or the prefix
 itself ends in '/' -/
-def contains (pre path : Bytes) : Bool :=
+def containsRaw (pre path : Bytes) : Bool :=
   match stripPrefix pre path with
   | none => false
   | some rest => rest.isEmpty || rest.head? == some 47 || pre.getLast? == some 47
 
-def candidates (l : List Mounted) (path : Bytes) : List Mounted :=
-  l.filter fun m => !m.pre.isEmpty && m.own.isSome && contains m.pre path
+/-- the byte the router compares: lower-cased unless CaseSensitive -/
+def fb (cfg : Cfg) (c : Nat) : Nat := if cfg.caseSensitive then c else lowerByte c
 
-/-- the entry with the longest prefix -/
-def innermost : List Mounted → Option Mounted
+def fold (cfg : Cfg) (s : Bytes) : Bytes := s.map (fb cfg)
+
+/-- where the router mounts an app registered under the appList key `k` -/
+def mountedAt (k : Bytes) : Bytes := ensureSlash k
+
+/-- the appList key as the router tells mount points apart: leading slash added, letter case folded
+unless CaseSensitive; `""` (the app itself) stays `""`. Two apps whose keys agree in this form are
+one mount point to the router (the one registered first serves every request): such tables are
+outside the property's "mount structure" (hypothesis `Nodup` in Props, rejected by the driver). -/
+def normKey (cfg : Cfg) (k : Bytes) : Bytes := if k = [] then [] else fold cfg (mountedAt k)
+
+/-- literal containment, compared as the router compares -/
+def contains (cfg : Cfg) (k path : Bytes) : Bool :=
+  containsRaw (fold cfg (mountedAt k)) (fold cfg path)
+
+/-! #### the prefix as a route pattern -/
+
+inductive Tok where
+  | lit (c : Nat)
+  | param
+  deriving Repr, DecidableEq
+
+/-- literal bytes and whole-segment parameters: `:` directly after a `/` starts a parameter whose
+name runs to the next `/` (or the end) -/
+def tokenize (inName prevSlash : Bool) : Bytes → List Tok
+  | [] => []
+  | c :: t =>
+    if inName then
+      if c = 47 then .lit 47 :: tokenize false true t else tokenize true false t
+    else if c = 58 ∧ prevSlash = true then .param :: tokenize true false t
+    else .lit c :: tokenize false (c == 47) t
+
+/-- number of path bytes the tokens consume, if they match a leading part of the path -/
+def matchToks (cfg : Cfg) : List Tok → Bytes → Option Nat
+  | [], _ => some 0
+  | .lit _ :: _, [] => none
+  | .lit c :: ts, d :: p => if fb cfg c = fb cfg d then (matchToks cfg ts p).map (· + 1) else none
+  | .param :: ts, p =>
+    let v := p.takeWhile (· != 47)
+    if v.isEmpty then none else (matchToks cfg ts (p.drop v.length)).map (· + v.length)
+
+/-- the prefix, read as a pattern, covers a leading part of the path that ends on a segment boundary:
+`some n` = it covers the first `n` bytes -/
+def coversPat (cfg : Cfg) (k path : Bytes) : Option Nat :=
+  match matchToks cfg (tokenize false false (mountedAt k)) path with
+  | none => none
+  | some n =>
+    let rest := path.drop n
+    if rest.isEmpty || rest.head? == some 47 || (mountedAt k).getLast? == some 47 then some n else none
+
+def isCandidate (cfg : Cfg) (path : Bytes) (m : Mounted) : Bool :=
+  !m.pre.isEmpty && m.own.isSome && (contains cfg m.pre path || (coversPat cfg m.pre path).isSome)
+
+def candidates (cfg : Cfg) (l : List Mounted) (path : Bytes) : List Mounted :=
+  l.filter (isCandidate cfg path)
+
+/-- twice the number of path bytes the prefix accounts for, plus one for a literal match -/
+def reach (cfg : Cfg) (path : Bytes) (m : Mounted) : Nat :=
+  if contains cfg m.pre path then 2 * (mountedAt m.pre).length + 1
+  else match coversPat cfg m.pre path with
+    | some n => 2 * n
+    | none => 0
+
+/-- the entry with the furthest reach -/
+def innermost (cfg : Cfg) (path : Bytes) : List Mounted → Option Mounted
   | [] => none
   | m :: t =>
-    match innermost t with
+    match innermost cfg path t with
     | none => some m
-    | some x => if x.pre.length > m.pre.length then some x else some m
+    | some x => if reach cfg path x > reach cfg path m then some x else some m
 
-def selectSpec (l : List Mounted) (path : Bytes) : Option Own :=
-  (innermost (candidates l path)).bind (·.own)
+def selectSpec (cfg : Cfg) (l : List Mounted) (path : Bytes) : Option Own :=
+  (innermost cfg path (candidates cfg l path)).bind (·.own)
 
 /-- the handler the sentence designates: the innermost configured mounted app's, else the root's
 (`none` = the root did not configure one: DefaultErrorHandler) -/
-def designated (l : List Mounted) (rootOwn : Option Own) (path : Bytes) : Option Own :=
-  match selectSpec l path with
+def designated (cfg : Cfg) (l : List Mounted) (rootOwn : Option Own) (path : Bytes) : Option Own :=
+  match selectSpec cfg l path with
   | some o => some o
   | none => rootOwn
 
-def expected (l : List Mounted) (rootOwn : Option Own) (path : Bytes) (chain : Option Err) : Option Outcome :=
+def expected (cfg : Cfg) (l : List Mounted) (rootOwn : Option Own) (path : Bytes) (chain : Option Err) :
+    Option Outcome :=
   match chain with
   | none => none
   | some e =>
-    match designated l rootOwn path with
+    match designated cfg l rootOwn path with
     | none => some ⟨[.default], (match e with | .fiber c _ => c | .plain _ => 500), e.msg⟩
     | some o =>
       if o.fails then some ⟨[.custom o.id], 500, b "Internal Server Error"⟩
       else some ⟨[.custom o.id], 418, b "eh" ++ natToDec o.id ++ b ":" ++ e.msg⟩
 
-/-- one observed evaluation: the chain's error as the outermost middleware saw it, how often each
-custom handler ran, status and body -/
+/-- errors the server meets before any handler chain runs reach the same funnel as a framework
+error: request header larger than the read buffer → 431; read/write deadline of the connection
+exceeded → 408; any other network error → 502; body larger than BodyLimit → 413; a non-GET request
+on a GET-only server → 405; otherwise an error whose text mentions a timeout → 408; anything else →
+400 with the error's own text. -/
+def specServerErr (e : SrvErr) : Err :=
+  match e.smallBuffer, e.opTimeout, e.netError, e.bodyTooLarge, e.getOnly with
+  | true, _, _, _, _ => .fiber 431 (b "Request Header Fields Too Large")
+  | false, true, _, _, _ => .fiber 408 (b "Request Timeout")
+  | false, false, true, _, _ => .fiber 502 (b "Bad Gateway")
+  | false, false, false, true, _ => .fiber 413 (b "Request Entity Too Large")
+  | false, false, false, false, true => .fiber 405 (b "Method Not Allowed")
+  | false, false, false, false, false =>
+    if (indexOf e.msg (b "timeout")).isSome then .fiber 408 (b "Request Timeout") else .fiber 400 e.msg
+
+def expectedServer (cfg : Cfg) (l : List Mounted) (rootOwn : Option Own) (path : Bytes) (e : SrvErr) :
+    Option Outcome :=
+  expected cfg l rootOwn path (some (specServerErr e))
+
+/-- one observed evaluation: the error that entered the funnel (as the outermost middleware saw it
+come back from the chain, or — server errors — as the spec maps what fasthttp handed over), how
+often each custom handler ran, status and body -/
 structure Seen where
   chain : Option Err
   calls : List (Nat × Nat)
@@ -76,11 +178,12 @@ structure Seen where
 def customCalls (o : Outcome) : List (Nat × Nat) :=
   o.ran.filterMap fun r => match r with | .custom i => some (i, 1) | .default => none
 
-def specViolation (l : List Mounted) (rootOwn : Option Own) (path : Bytes) (seen : List Seen) : Option String :=
+def specViolation (cfg : Cfg) (l : List Mounted) (rootOwn : Option Own) (path : Bytes) (seen : List Seen) :
+    Option String :=
   match seen with
   | [] => some "no-observation"
   | [s] =>
-    match expected l rootOwn path s.chain with
+    match expected cfg l rootOwn path s.chain with
     | none => if s.calls.isEmpty then none else some "exactly-once: an error handler ran although the chain returned no error"
     | some o =>
       if s.calls != customCalls o then
